@@ -21,19 +21,38 @@ use std::time::{Duration, SystemTime};
 pub static DEF: CheckDef = CheckDef {
     id: "C02",
     level: "exploration",
-    technique: "deterministic component simulation of the routing table: seeded client tasks (join/add/fail/evict/lookup/served find-node and find-value requests) on the real DhtCoreEngine, every answer compared with the exact closest-set computed from the table content read at that instant; plus a reply monitor inside the multi-node network simulation",
+    technique: "deterministic component simulation of the routing table: seeded client tasks (join/add/fail/evict/lookup/served find-node and find-value requests) on the real DhtCoreEngine, every answer compared with the exact closest-set computed from the table content read at that instant; plus (one run in five) a reply monitor in the multi-node network simulation: a stub requester queries real nodes and every find-node/find-value/get reply is compared with the replying node's table and connected peers read at that instant",
     runs: (2500, 200000),
     generate,
     execute,
     shrink,
-    rule: "each run = local id + 10..80 operations over 2..4 tasks; ids are placed by bucket (far buckets, bucket 0 and 255 edges, up to 12 ids aimed at one bucket of capacity 8, ids differing in the last byte, repeats, the local id itself); lookups use counts 0..64 and keys random / equal to a node id / the local id / adjacent to an id; non-trivial = at least one lookup over a table holding ids in >= 3 distinct buckets; distinct = distinct hash of the operation/answer log",
-    real_components: &["DhtCoreEngine (join_network, add_node, handle_node_failure, evict_node, find_nodes, handle_request)", "KademliaRoutingTable / KBucket"],
+    rule: "each run = local id + 10..80 operations over 2..4 tasks; ids are placed by bucket (far buckets, bucket 0 and 255 edges, up to 12 ids aimed at one bucket of capacity 8, ids differing in the last byte, repeats, the local id itself); lookups use counts 0..64 and keys random / equal to a node id / the local id / adjacent to an id; non-trivial = at least one lookup over a table holding ids in >= 3 distinct buckets (net family: a reply from a node that knows more than 9 peers); net family = 2..12 real nodes in a drawn topology plus 0..13 extra stub connections, 4..14 queries (find_node / find_value / get; key random, a node position, adjacent, the requester's own; claimed source = transport id, a distinct application id, or another node's id), connection churn between queries; distinct = distinct hash of the operation/answer log",
+    real_components: &["net family: TransportHandle, DhtNetworkManager::handle_lookup_request / find_closest_nodes_local / filter_response_nodes", "DhtCoreEngine (join_network, add_node, handle_node_failure, evict_node, find_nodes, handle_request)", "KademliaRoutingTable / KBucket"],
     stubbed_components: &[],
     assumptions: &["addresses are deliberately unparseable here so that admission gates (C13) stay out of the way", "calls are single lock sections; tasks contribute orderings"],
 };
 
+/// One run in five: the wire-level clause. Real nodes in a drawn topology; a stub requester that is
+/// connected to all of them sends find-node / find-value / get requests for drawn keys; every reply is
+/// compared with what the replying node knows (routing table plus connected peers) at that instant.
+fn generate_net(seed: u64, r: &mut Rng) -> Value {
+    let n = r.range(2, 12);
+    let topo = *r.pick(super::c01::TOPOLOGIES);
+    let edges: Vec<Value> = super::c01::gen_topology(r, n, topo).into_iter().map(|(a, b)| json!([a, b])).collect();
+    let nodes: Vec<Value> = (0..n).map(|i| json!({"tid_salt": r.below(1 << 40), "ip": [11 + 17 * i, r.below(3), r.below(250), 1 + i], "port": 9000 + r.below(50)})).collect();
+    let mut queries = Vec::new();
+    for _ in 0..r.range(4, 14) {
+        queries.push(json!({"to": r.below(n), "op": *r.pick(&["find_node", "find_node", "find_value", "get"]), "key": *r.pick(&["random", "node", "adjacent", "requester"]), "key_of": r.below(n), "salt": r.below(1 << 40),
+                            "claimed": *r.pick(&["tid", "tid", "app", "victim"]), "churn": if r.chance(1, 4) { json!([r.below(n), r.below(n)]) } else { Value::Null }}));
+    }
+    json!({"property": "C02", "family": "net", "seed": seed, "net_seed": r.below(1 << 40), "n": n, "topology": topo, "edges": edges, "ident": if r.chance(1, 2) { "a" } else { "b" }, "k": 8, "timeout_ms": 1000,
+           "nodes": nodes, "faults": {"silence": [], "slow": [], "drops": [], "dial": []}, "liars": [], "latency_ms": *r.pick(&[1u64, 5]), "jitter_ms": *r.pick(&[0u64, 4]),
+           "extra_stubs": if r.chance(1, 2) { r.below(14) } else { 0 }, "queries": queries})
+}
+
 fn generate(seed: u64, tier: Tier) -> Value {
     let mut r = Rng::new(seed);
+    if r.chance(1, 5) { return generate_net(seed, &mut r); }
     let local = r.bytes(32);
     let n_ops = r.range(10, if tier == Tier::Quick { 60 } else { 80 });
     let tasks = r.range(2, 4);
@@ -73,6 +92,12 @@ fn generate(seed: u64, tier: Tier) -> Value {
 }
 
 fn shrink(sc: &Value) -> Vec<Value> {
+    if sc["family"] == "net" {
+        let mut v = drop_chunks(sc, "queries");
+        v.extend(drop_chunks(sc, "edges"));
+        if sc["extra_stubs"].as_u64().unwrap_or(0) > 0 { let mut c = sc.clone(); c["extra_stubs"] = json!(sc["extra_stubs"].as_u64().unwrap_or(0) / 2); v.push(c); }
+        return v;
+    }
     drop_chunks(sc, "ops")
 }
 
@@ -118,7 +143,125 @@ fn short(id: &[u8; 32]) -> String {
     hex::encode(&id[..3])
 }
 
+/// What a node knows: DHT position -> identifiers it is known under (routing entries and connected peers).
+async fn knowledge(nd: &crate::simnet::SimNode) -> std::collections::BTreeMap<[u8; 32], Vec<String>> {
+    let mut k: std::collections::BTreeMap<[u8; 32], Vec<String>> = std::collections::BTreeMap::new();
+    let g = nd.manager.verif_dht();
+    for e in g.read().await.verif_routing_entries().await { k.entry(*e.id.as_bytes()).or_default().push(hex::encode(e.id.as_bytes())); }
+    for (pid, key, addr, connected) in nd.manager.verif_dht_peers().await {
+        if connected && addr.is_some() { k.entry(key).or_default().push(pid); }
+    }
+    k
+}
+
+fn execute_net(sc: &Value) -> RunReport {
+    use saorsa_core::dht_network_manager::{DhtMessageType, DhtNetworkMessage, DhtNetworkOperation, DhtNetworkResult};
+    use saorsa_core::verif_hooks;
+    let seed = sc["seed"].as_u64().unwrap_or(0);
+    let rt = sim_runtime(seed);
+    let mut ctx = Ctx::new();
+    rt.block_on(async {
+        let (net, nodes) = match super::c01::build_world(sc, false).await {
+            Ok(x) => x,
+            Err(e) => { ctx.harness_error = Some(format!("build_world: {e}")); return; }
+        };
+        let n = nodes.len();
+        // the requester: a stub every node has an authenticated connection from
+        let q_tid = hex::encode(Rng::new(seed ^ 0xc02).arr32());
+        let q_app = format!("peer_{:08x}", seed as u32);
+        let q_addr: std::net::SocketAddr = "172.31.9.9:7100".parse().unwrap();
+        let (q_idx, mut q_rx) = net.add_stub(&q_tid, q_addr);
+        for nd in &nodes { let _ = nd.transport.verif_accept(&q_tid, q_addr).await; net.link(q_idx, nd.idx); }
+        let mut keep = Vec::new();
+        for e in 0..sc["extra_stubs"].as_u64().unwrap_or(0) {
+            let tid = hex::encode(Rng::new(seed ^ (0xe200 + e)).arr32());
+            let addr: std::net::SocketAddr = format!("{}.{}.7.7:6000", 40 + 13 * e % 180, 1 + (e * 7) % 200).parse().unwrap();
+            let (idx, rx) = net.add_stub(&tid, addr);
+            let to = (e as usize) % n;
+            let _ = nodes[to].transport.verif_accept(&tid, addr).await;
+            net.link(idx, nodes[to].idx);
+            keep.push(rx);
+        }
+        tokio::time::sleep(Duration::from_millis(300)).await;
+        let q_pos = saorsa_core::dht::derive_dht_key_from_peer_id(&q_tid);
+        let mut big = false;
+        for (qi, q) in sc["queries"].as_array().cloned().unwrap_or_default().iter().enumerate() {
+            let to = (q["to"].as_u64().unwrap_or(0) as usize) % n;
+            // connection churn between queries: what the node knows changes
+            if let Some(c) = q["churn"].as_array() {
+                let (a, b) = ((c[0].as_u64().unwrap_or(0) as usize) % n, (c[1].as_u64().unwrap_or(0) as usize) % n);
+                if a != b { let _ = nodes[a].manager.connect_to_peer(&nodes[b].addr.to_string()).await; tokio::time::sleep(Duration::from_millis(100)).await; }
+            }
+            let of = (q["key_of"].as_u64().unwrap_or(0) as usize) % n;
+            let of_pos = saorsa_core::dht::derive_dht_key_from_peer_id(&nodes[of].tid);
+            let key: [u8; 32] = match q["key"].as_str().unwrap_or("random") {
+                "node" => of_pos,
+                "adjacent" => { let mut k = of_pos; k[31] ^= 1; k }
+                "requester" => q_pos,
+                _ => Rng::new(q["salt"].as_u64().unwrap_or(0)).arr32(),
+            };
+            let op = match q["op"].as_str().unwrap_or("find_node") { "find_value" => DhtNetworkOperation::FindValue { key }, "get" => DhtNetworkOperation::Get { key }, _ => DhtNetworkOperation::FindNode { key } };
+            let claimed = match q["claimed"].as_str().unwrap_or("tid") { "app" => q_app.clone(), "victim" => nodes[of].tid.clone(), _ => q_tid.clone() };
+            let now = std::time::SystemTime::now().duration_since(std::time::UNIX_EPOCH).map(|d| d.as_secs()).unwrap_or(0);
+            let msg = DhtNetworkMessage { message_id: format!("c02-{qi}"), source: claimed.clone(), target: None, message_type: DhtMessageType::Request, payload: op, result: None, timestamp: now, ttl: 5, hop_count: 0 };
+            while q_rx.try_recv().is_ok() {}
+            let k0 = knowledge(&nodes[to]).await;
+            net.inject(q_idx, nodes[to].idx, verif_hooks::encode_wire("/dht/1.0.0", postcard::to_stdvec(&msg).unwrap_or_default(), &claimed, now), 0);
+            tokio::time::sleep(Duration::from_millis(150)).await;
+            let k1 = knowledge(&nodes[to]).await;
+            ctx.ops += 1;
+            let mut reply = None;
+            while let Ok((_f, bytes)) = q_rx.try_recv() { if let (_, Some(m), _) = crate::simnet::decode(&bytes) { if m.message_id == format!("c02-{qi}") { reply = m.result.clone(); } } }
+            let listed: Vec<saorsa_core::dht_network_manager::DHTNode> = match reply {
+                Some(DhtNetworkResult::NodesFound { nodes: l, .. }) => l,
+                Some(DhtNetworkResult::GetNotFound { .. }) => Vec::new(),
+                Some(other) => { ev!("q{qi} -> {}", crate::simnet::result_name(&other)); continue; }
+                None => { ctx.violate("C02.reply.request_not_answered", "", format!("query {qi} to node {to} got no reply")); continue; }
+            };
+            let pos_of = |d: &saorsa_core::dht_network_manager::DHTNode| -> [u8; 32] { match d.distance.as_ref() { Some(v) if v.len() == 32 => { let mut b = [0u8; 32]; b.copy_from_slice(v); b } _ => saorsa_core::dht::derive_dht_key_from_peer_id(&d.peer_id) } };
+            let got: Vec<[u8; 32]> = listed.iter().map(pos_of).collect();
+            ev!("q{qi} to={to} {} key={} known={} -> {} entries", q["op"].as_str().unwrap_or(""), q["key"].as_str().unwrap_or(""), k0.len(), got.len());
+            if k0.len() > 9 { big = true; }
+            let situation = format!("{}:claimed_{}", if k0.len() > 8 { "knows>8" } else { "knows<=8" }, q["claimed"].as_str().unwrap_or("tid"));
+            // protocol cap
+            if listed.len() > 8 { ctx.violate("C02.reply.exceeds_protocol_cap", situation.clone(), format!("query {qi}: reply lists {} nodes", listed.len())); }
+            // each peer once, under a single identifier
+            let distinct: BTreeSet<[u8; 32]> = got.iter().copied().collect();
+            let ids: BTreeSet<&String> = listed.iter().map(|d| &d.peer_id).collect();
+            let addrs: BTreeSet<String> = listed.iter().map(|d| d.address.split(" (").next().unwrap_or("").to_string()).collect();
+            if distinct.len() != got.len() || ids.len() != listed.len() || addrs.len() != listed.len() {
+                ctx.violate("C02.reply.peer_named_twice", situation.clone(), format!("query {qi}: {} entries, {} distinct positions, {} distinct identifiers, {} distinct addresses", listed.len(), distinct.len(), ids.len(), addrs.len()));
+            }
+            // ascending
+            if got.windows(2).any(|w| xor(&w[0], &key) > xor(&w[1], &key)) { ctx.violate("C02.reply.not_ascending", situation.clone(), format!("query {qi}")); }
+            // exactly the closest of what the node knows; the requester may be left out before or after the cut
+            let matches = |k: &std::collections::BTreeMap<[u8; 32], Vec<String>>| -> bool {
+                let mut all: Vec<[u8; 32]> = k.keys().copied().collect();
+                all.sort_by_key(|p| xor(p, &key));
+                let e2: Vec<[u8; 32]> = all.iter().take(8).copied().filter(|p| *p != q_pos).collect();
+                let e1: Vec<[u8; 32]> = all.iter().copied().filter(|p| *p != q_pos).take(8).collect();
+                let e0: Vec<[u8; 32]> = all.iter().take(8).copied().collect();
+                got == e1 || got == e2 || got == e0
+            };
+            if !(matches(&k0) || matches(&k1)) {
+                let mut all: Vec<[u8; 32]> = k1.keys().copied().collect();
+                all.sort_by_key(|p| xor(p, &key));
+                ctx.violate("C02.reply.not_the_closest_known", situation, format!("query {qi} to node {to}: reply {:?}; the node knows {} peers, closest {:?}", got.iter().map(short).collect::<Vec<_>>(), all.len(), all.iter().take(9).map(short).collect::<Vec<_>>()));
+            }
+        }
+        ctx.nontrivial = big;
+        if big { ctx.probe("net_reply_from_node_knowing_more_than_8"); }
+        ctx.probe("net_family_runs");
+        ctx.sim_ms += net.now_ms();
+        net.shutdown();
+        drop(keep);
+    });
+    drop(rt);
+    ctx.finish()
+}
+
 fn execute(sc: &Value) -> RunReport {
+    if sc["family"] == "net" { return execute_net(sc); }
     let seed = sc["seed"].as_u64().unwrap_or(0);
     let mut local = [0u8; 32];
     hex::decode_to_slice(sc["local"].as_str().unwrap_or(""), &mut local).ok();
